@@ -3,7 +3,7 @@
 \* holes, shared or distinct identities) into every well-typed program up to MaxSize; occurs-check configurations
 \* (a hole against a term containing it); reflexive and reduct pairs of hole-free terms.
 EXTENDS GramBuild, GramUnify, GramPool, Json
-CONSTANTS TyFuel
+CONSTANTS TyFuel, Skel
 T == Built
 WellTyped(t) == Infer(t, <<>>, TyFuel).r = "ok" /\ DefOrderOK(t)     \* no divergent definitions: conversion terminates
 P(kind, a, b) == [kind |-> kind, a |-> a, b |-> b]
@@ -27,9 +27,15 @@ Nested(t) == UNION { { P("nested", Replace(t, s1.pos, Hole(1, p[1])), Replace(t,
                      : <<s1, s2>> \in { <<x, y>> \in Subterms(t, <<>>, 0) \X Subterms(t, <<>>, 0) : x.pos # <<>> /\ IsPrefixPos(x.pos, y.pos) /\ x.pos # y.pos } }
 \* occurs check through another hole's solution: the pattern has holes h1, h2 at two disjoint positions, the instance has
 \* -h2 where the pattern has h1 and -h1 where the pattern has h2: after h1 := -h2, solving h2 := -h1 would be cyclic
-Cycle2(t) == { P("cycle2", Replace(Replace(t, s1.pos, Hole(1, s1.d)), s2.pos, Hole(2, s2.d)), Replace(Replace(t, s1.pos, NegT(Hole(2, s1.d))), s2.pos, NegT(Hole(1, s2.d))))
+\* (below the function parameter of skeleton 3 the wrapper is an application of that parameter, g h: weak-head normalisation
+\* leaves the argument of a neutral application alone, so the solved hole stays a hole node inside the other's solution)
+Wrap(d, h) == IF Skel = 3 /\ d >= 1 THEN App(Var(d - 1), h) ELSE NegT(h)
+\* home of the two holes: the outermost context, or (skeleton 3) just inside the binder of g, so that solutions may mention g
+HS(d) == IF Skel = 3 /\ d >= 1 THEN d - 1 ELSE d
+Cycle2(t) == { P("cycle2", Replace(Replace(t, s1.pos, Hole(1, HS(s1.d))), s2.pos, Hole(2, HS(s2.d))), Replace(Replace(t, s1.pos, Wrap(s1.d, Hole(2, HS(s1.d)))), s2.pos, Wrap(s2.d, Hole(1, HS(s2.d)))))
               : <<s1, s2>> \in { <<x, y>> \in Subterms(t, <<>>, 0) \X Subterms(t, <<>>, 0) :
-                                  x.pos # <<>> /\ y.pos # <<>> /\ ~IsPrefixPos(x.pos, y.pos) /\ ~IsPrefixPos(y.pos, x.pos) } }
+                                  x.pos # <<>> /\ y.pos # <<>> /\ ~IsPrefixPos(x.pos, y.pos) /\ ~IsPrefixPos(y.pos, x.pos)
+                                  /\ (Skel = 3 => (x.d >= 1 /\ y.d >= 1)) } }      \* both inside the scope of g: one home per hole
 \* unrelated terms: one subterm replaced by a different constant -- unification has to fail (or succeed, where the subterm does
 \* not matter) part-way through the binders above the position, and leave the caller's context as it was (C18)
 Mismatch(t) == UNION { { P("mismatch", Replace(t, s.pos, k), t) : k \in {TType, TInt, Lit(OfSmall(1))} \ {s.sub} } : s \in { x \in Subterms(t, <<>>, 0) : x.pos # <<>> } }
@@ -41,10 +47,11 @@ TwoStep(t) == UNION { { [kind |-> "twostep", a |-> Replace(t, s1.pos, Hole(1, p[
                       : <<s1, s2>> \in { <<x, y>> \in Subterms(t, <<>>, 0) \X Subterms(t, <<>>, 0) : x.pos # <<>> /\ IsPrefixPos(x.pos, y.pos) /\ x.pos # y.pos } }
 \* hosts below binders: the machine starts inside  (x : type) => _   or  (x : type) => (y : type) => _ , so that small bodies
 \* can mention variables bound outside the punched region
-CONSTANT Skel
 SInit == CASE Skel = 0 -> BInit
            [] Skel = 1 -> pre = <<[k |-> "lam"], [k |-> "type"]>> /\ pending = <<1>> /\ size = 2
            [] Skel = 2 -> pre = <<[k |-> "lam"], [k |-> "type"], [k |-> "lam"], [k |-> "type"]>> /\ pending = <<2>> /\ size = 4
+           \* (g : int -> int) => _
+           [] Skel = 3 -> pre = <<[k |-> "lam"], [k |-> "pi"], [k |-> "int"], [k |-> "int"]>> /\ pending = <<1>> /\ size = 4
 Reducts(t) == { P("reduct", t, StepN(t, k)) : k \in 0..3 }
 Pairs(t) == SingleOK(t) \cup Double(t) \cup Cross(t) \cup Occurs(t) \cup Nested(t) \cup Cycle2(t) \cup Mismatch(t) \cup Unrelated(t) \cup Reducts(t)
 Emit2 == (Done /\ size >= 2 /\ ~HasHole(T) /\ WellTyped(T)) => \A p \in TwoStep(T) : PrintT(<<"PAIR", ToJson(p)>>)
